@@ -86,6 +86,9 @@ def cases(tier, seed):
         for rep in ("dense", "csr"):
             for big in (1.0, 1000.0):
                 out.append(dict(cls="threshold", rel=rel, repr=rep, big=big, total=3))
+    # (l) second-quantised perturbation that couples degenerate (resonant) levels
+    for model in ("boson-hop", "fermion-hop", "jc-resonant", "boson-hop-matrix", "two-photon"):
+        out.append(dict(cls="sq-resonant", model=model, total=2))
     # (j) finiteness on the well-posed float lattice
     for herm in (True, False):
         for st in lattice.structures(3, hermitian=herm, ks=(1,)):
@@ -501,3 +504,60 @@ def run_threshold(case):
             V.append("non-finite element returned")
             break
     return V, True, "answered"
+
+
+# ---------------------------------------------------------------- (l)
+def run_sq_resonant(case):
+    import sympy
+    from sympy.physics.quantum import Dagger, pauli
+    from sympy.physics.quantum.boson import BosonOp
+    from sympy.physics.quantum.fermion import FermionOp
+
+    from pymablock import block_diagonalize
+    from pymablock.number_ordered_form import NumberOperator
+
+    a, b = BosonOp("a"), BosonOp("b")
+    c, d = FermionOp("c"), FermionOp("d")
+    sm = pauli.SigmaMinus("s")
+    N = NumberOperator
+    model = case["model"]
+    kwargs = {}
+    if model == "boson-hop":
+        H0, H1 = N(a) + N(b), Dagger(a) * b + Dagger(b) * a
+    elif model == "fermion-hop":
+        H0, H1 = 2 * N(c) + 2 * N(d), Dagger(c) * d + Dagger(d) * c
+    elif model == "jc-resonant":
+        H0, H1 = N(a) + N(sm), Dagger(sm) * a + sm * Dagger(a)
+    elif model == "two-photon":
+        H0, H1 = 2 * N(a) + N(b), Dagger(a) * b**2 + Dagger(b) ** 2 * a
+    else:
+        H0 = sympy.Matrix([[N(a) + N(b), 0], [0, N(a) + N(b) + 3]])
+        H1 = sympy.Matrix([[Dagger(a) * b + Dagger(b) * a, a], [Dagger(a), 0]])
+    V = []
+    try:
+        with warnings.catch_warnings():
+            warnings.simplefilter("ignore")
+            outs = block_diagonalize([H0, H1], **kwargs)
+    except REJECTIONS:
+        return [], True, "rejected-at-construction"
+    except Exception as e:  # noqa: BLE001
+        return [f"raises {type(e).__name__}: {str(e)[:100]} at construction"], True, "bad"
+    rejected = 0
+    for n in (1, 2):
+        for name, s_ in zip(("Ht", "U", "Uinv"), outs):
+            try:
+                with warnings.catch_warnings():
+                    warnings.simplefilter("ignore")
+                    v = s_[0, 0, n]
+            except REJECTIONS:
+                rejected += 1
+                continue
+            except Exception as e:  # noqa: BLE001
+                V.append(f"{name}[0,0,{n}] raises {type(e).__name__}: {str(e)[:80]}")
+                continue
+            txt = str(v)
+            if any(t in txt for t in ("zoo", "nan", "oo")):
+                V.append(f"{name}[0,0,{n}] of a resonant second-quantised problem is returned as {txt[:60]!r} instead of being rejected")
+            elif name == "U" and n == 1:
+                V.append(f"U[0,0,1] needs a vanishing energy denominator but a value was returned: {txt[:60]!r}")
+    return V, True, "constructed" + ("/rejected" if rejected else "")
